@@ -506,7 +506,7 @@ class Pipeline:
 
     def _current_cache(self) -> LRUCache | HybridCache | DiskCache | SimpleCache | None:
         """Return the cache used by the pipeline."""
-        if not isinstance(self.cache, SimpleCache) and (tg := task_graph()) is not None:
+        if (tg := task_graph()) is not None:
             return tg.cache
         return self.cache
 
